@@ -1,7 +1,7 @@
 // Harness crate for the hash crates: mode-of-operation contracts by ghost call-log (C04-C08, C17),
 // compression-function cores (C04, C06) and their per-backend wiring (C03).
 #![allow(non_camel_case_types, unused_imports, dead_code, static_mut_refs, clippy::all)]
-#![recursion_limit = "512"]
+#![recursion_limit = "1024"]
 #[path = "../common/nd.rs"]
 #[macro_use]
 pub mod nd;
